@@ -2,7 +2,7 @@
    (staked total + pending unbondings), in every reachable state. *)
 From Coq Require Import ZArith List Bool Lia.
 From Alliance Require Import Num KMap KMapFacts KMapSorted Types Monad Model Step Spec Hoare.
-From Alliance.Proofs Require Import SortedInv WellKeyed Misc.
+From Alliance.Proofs Require Import SortedInv WellKeyed Misc Frames.
 Import ListNotations.
 Open Scope Z_scope.
 
@@ -30,7 +30,10 @@ Section Denom.
   Proof. unfold sl, slack, custody, owed, B, T. rewrite U_is_unbonding_sum. lia. Qed.
 
   (* ---------- the invariants carried along ---------- *)
-  Definition Inv (s : State) : Prop := SortedS s /\ WK s.
+  (* recorded withdrawals carry non-negative amounts (admissibility of EOracle) *)
+  Definition coins_nonneg (c : Coins) : Prop := Forall (fun da => 0 <= snd da) c.
+  Definition ON (s : State) : Prop := Forall (fun vc => coins_nonneg (snd vc)) (oracle s).
+  Definition Inv (s : State) : Prop := SortedS s /\ WK s /\ ON s.
   Definition JC (c : Z) (s : State) : Prop := Inv s /\ c <= sl s.
 
   Lemma Inv_sorted_bank s : Inv s -> ksorted (bank s).
@@ -39,12 +42,15 @@ Section Denom.
   Proof. intros [(?&?&?&?&?&?&?&?&?&?&?&?&?) _]; assumption. Qed.
   Lemma Inv_sorted_undelq s : Inv s -> ksorted (undelq s).
   Proof. intros [(?&?&?&?&?&?&?&?&?&?&?&?&?) _]; assumption. Qed.
+  Lemma Inv_WK s : Inv s -> WK s.
+  Proof. intros (_ & H & _); exact H. Qed.
 
   (* Inv is preserved by everything (SortedInv, WellKeyed): as Hoare-style facts *)
-  Lemma Inv_f : forall s s', maps_of s' = maps_of s -> Inv s -> Inv s'.
+  Lemma Inv_f : forall s s', maps_of s' = maps_of s -> oracle s' = oracle s -> Inv s -> Inv s'.
   Proof.
-    intros s s' E [H1 H2]; split; [eapply Sf; eauto|]. eapply WKf; [|exact H2].
-    unfold maps_of in E. inversion E; reflexivity.
+    intros s s' E Eo (H1 & H2 & H3); split; [eapply Sf; eauto|]. split.
+    - eapply WKf; [|exact H2]. unfold maps_of in E. inversion E; reflexivity.
+    - unfold ON in *. rewrite Eo. exact H3.
   Qed.
 
   (* ---------- effect of the primitive writes on B, T, U ---------- *)
@@ -75,21 +81,27 @@ Section Denom.
 
   (* ---------- Inv at a modify leaf ---------- *)
   Ltac inv_goal Hi :=
-    destruct Hi as [HS HW]; split;
+    destruct Hi as (HS & HW & HO); split;
     [ unfold SortedS in *; unfold put_bal, put_sup; cbn;
       destruct HS as (?&?&?&?&?&?&?&?&?&?&?&?&?); srt_solve
-    | unfold WK in *; cbn; first [ exact HW | apply kall_kset; [exact HW | reflexivity] | apply kall_kdel; exact HW ] ].
+    | split;
+      [ unfold WK in *; cbn; first [ exact HW | apply kall_kset; [exact HW | reflexivity] | apply kall_kdel; exact HW ]
+      | unfold ON in *; cbn; first [ exact HO | inversion HO; assumption ] ] ].
 
   (* a write that touches neither the bank, nor the assets, nor the unbonding queue *)
   Ltac neutral_leaf :=
     apply inv_modify; let s := fresh "s" in let H := fresh "H" in
     intros s [Hi Hc]; split; [inv_goal Hi | exact Hc].
   Definition proj (s : State) := (bank s, assets s, undelq s).
-  Lemma JC_f c : forall s s', maps_of s' = maps_of s -> JC c s -> JC c s'.
+  Lemma JC_f c : forall s s', (maps_of s', oracle s') = (maps_of s, oracle s) -> JC c s -> JC c s'.
   Proof.
-    intros s s' E [Hi Hc]; split; [eapply Inv_f; eauto|].
-    unfold maps_of in E; inversion E as [[E1 E2 E3 E4 E5 E6 E7 E8 E9 E10 E11 E12 E13]].
-    unfold sl, B, T, U, bal, staked_total in *. rewrite E1, E7, E10. exact Hc.
+    intros s s' E0 [Hi Hc].
+    assert (E : maps_of s' = maps_of s) by congruence. assert (Eo : oracle s' = oracle s) by congruence.
+    split; [eapply Inv_f; eauto|].
+    assert (Eb : bank s' = bank s) by (unfold maps_of in E; congruence).
+    assert (Ea : assets s' = assets s) by (unfold maps_of in E; congruence).
+    assert (Eu : undelq s' = undelq s) by (unfold maps_of in E; congruence).
+    unfold sl, B, T, U, bal, staked_total in *. rewrite Eb, Ea, Eu. exact Hc.
   Qed.
 
   (* ---------- bank ---------- *)
@@ -115,7 +127,7 @@ Section Denom.
 
   (* adding to custody: slack grows by what was added *)
   Lemma jc_bank_add_custody coins : forall c,
-    hoare (JC c) (bank_add ACC_ALLIANCE coins) (fun _ => JC (c + csum coins)) (fun _ => True).
+    hoare (JC c) (bank_add ACC_ALLIANCE coins) (fun _ => JC (c + csum coins)) (fun _ => False).
   Proof.
     unfold bank_add. induction coins as [|[d' a'] coins IH]; intros c; cbn [mfor]; [|rewrite csum_cons].
     - apply hoare_ret. intros s H. cbn. rewrite Z.add_0_r. exact H.
@@ -143,5 +155,175 @@ Section Denom.
         * apply Z.eqb_neq in E. rewrite B_put_bal_other, T_put_bal, U_put_bal by (auto; congruence). lia.
       + intros _. cbn [fst snd].
         replace (c - ((if d' =? d then a' else 0) + csum coins)) with (c - (if d' =? d then a' else 0) - csum coins) by lia. apply IH.
+  Qed.
+
+  (* ---------- with non-negative coins every exit of the custody debit is bounded ---------- *)
+  Lemma csum_nonneg coins : coins_nonneg coins -> 0 <= csum coins.
+  Proof.
+    intros H; induction H as [|[d' a'] coins Ha Hc IH]; cbn; [lia|]. fold (csum coins). cbn in Ha.
+    destruct (d' =? d); lia.
+  Qed.
+  Lemma JC_weaken c c' s : c' <= c -> JC c s -> JC c' s.
+  Proof. intros Hle [Hi Hc]; split; [exact Hi | lia]. Qed.
+
+  Lemma jc_bank_sub_custody_strong coins : coins_nonneg coins -> forall c,
+    hoare (JC c) (bank_sub ACC_ALLIANCE coins) (fun _ => JC (c - csum coins)) (JC (c - csum coins)).
+  Proof.
+    unfold bank_sub. intros Hn; induction Hn as [|[d' a'] coins Ha Hn IH]; intros c; cbn [mfor]; [|rewrite csum_cons].
+    - apply hoare_ret. intros s H. cbn. rewrite Z.sub_0_r. exact H.
+    - cbn in Ha. pose proof (csum_nonneg coins Hn) as Hcs.
+      eapply hoare_bind with (Q1 := fun _ => JC (c - (if d' =? d then a' else 0))).
+      + eapply hoare_bind with (Q1 := fun b s => JC c s /\ b = bal s ACC_ALLIANCE d'); [apply hoare_gets; auto|].
+        intros b. cbn [fst snd]. destruct (b <? a').
+        * apply hoare_fail. intros s [H _]. eapply JC_weaken; [|exact H]. destruct (d' =? d); lia.
+        * apply hoare_modify. intros s [[Hi Hc] Hb]. split; [inv_goal Hi|]. unfold sl in *.
+          destruct (d' =? d) eqn:E.
+          -- apply Z.eqb_eq in E; subst d'. rewrite B_put_bal_custody, T_put_bal, U_put_bal by exact Hi. unfold B in *. lia.
+          -- apply Z.eqb_neq in E. rewrite B_put_bal_other, T_put_bal, U_put_bal by (auto; congruence). lia.
+      + intros _. cbn [fst snd].
+        replace (c - ((if d' =? d then a' else 0) + csum coins)) with (c - (if d' =? d then a' else 0) - csum coins) by lia. apply IH.
+  Qed.
+
+  (* ---------- automation for programs that only make neutral writes ---------- *)
+  Ltac acc_ne := first [ assumption | unfold ACC_ALLIANCE, ACC_REWARDS, ACC_FEE, ACC_BONDED, ACC_NOTBONDED in *; lia ].
+  Ltac jc_leaf c :=
+    first
+      [ apply inv_modify; let s := fresh "s" in let Hs := fresh "Hs" in
+        intros s Hs; apply (JC_f c s); [reflexivity | exact Hs]
+      | apply inv_modify; let s := fresh "s" in
+        intros s [Hi Hc]; split; [inv_goal Hi | exact Hc] ].
+  Ltac jc_step c :=
+    first
+      [ lazymatch goal with
+        | |- inv _ (modify _) => jc_leaf c
+        | |- inv _ (bank_sub ?a _) => apply jc_bank_sub_other; acc_ne
+        | |- inv _ (bank_add ?a _) => apply jc_bank_add_other; acc_ne
+        end
+      | inv_step
+      | lazymatch goal with
+        | |- inv _ ?m => let h := head_of m in unfold h
+        end ].
+  Ltac jc_auto c := repeat (jc_step c).
+
+  (* ---------- reward settlement ---------- *)
+  Lemma jc_withdraw_oracle v c :
+    hoare (JC c) (withdraw_oracle v) (fun coins s => JC (c + csum coins) s /\ coins_nonneg coins) (JC c).
+  Proof.
+    unfold withdraw_oracle. apply hoare_bind_gets_eq. intros s0 Hs0.
+    destruct (oracle s0) as [|[v' cs] rest] eqn:Eo; [apply hoare_fail; intros; subst; exact Hs0|].
+    destruct (v' =? v); [|apply hoare_fail; intros; subst; exact Hs0].
+    assert (Hn : coins_nonneg cs).
+    { destruct Hs0 as [(_ & _ & HO) _]. unfold ON in HO. rewrite Eo in HO. inversion HO; assumption. }
+    eapply hoare_bind with (Q1 := fun _ => JC c).
+    { apply hoare_modify. intros s ->. destruct Hs0 as [Hi Hc]. split; [|exact Hc].
+      destruct Hi as (HS & HW & HO). split; [exact HS|]. split; [exact HW|]. unfold ON in *. cbn. rewrite Eo in HO. inversion HO; assumption. }
+    intros _. eapply hoare_bind with (Q1 := fun _ => JC (c + csum cs)).
+    { eapply hoare_post; [| |apply jc_bank_add_custody]; cbn; [auto | intros ? []]. }
+    intros _. apply hoare_ret. intros s H; split; [exact H | exact Hn].
+  Qed.
+
+  Lemma jc_add_assets_to_reward_pool v vi coins c : coins_nonneg coins ->
+    hoare (JC (c + csum coins)) (add_assets_to_reward_pool v vi coins) (fun _ => JC c) (JC c).
+  Proof.
+    intros Hn. pose proof (csum_nonneg coins Hn) as Hcs.
+    assert (Hw : forall s, JC (c + csum coins) s -> JC c s) by (intros s; apply JC_weaken; lia).
+    unfold add_assets_to_reward_pool. destruct (length (vi_dshares vi) =? 0)%nat; [apply hoare_ret; exact Hw|].
+    eapply hoare_bind with (Q1 := fun _ => JC (c + csum coins)); [unfold all_assets; apply hoare_gets; auto|]. intros als.
+    eapply hoare_bind with (Q1 := fun _ => JC (c + csum coins)); [apply hoare_gets; auto|]. intros t.
+    eapply hoare_bind with (Q1 := fun _ => JC (c + csum coins)).
+    { eapply hoare_post; [| |apply inv_hoare]; [intros ? ? H; exact H | exact Hw |]. jc_auto (c + csum coins). }
+    intros hist.
+    eapply hoare_bind with (Q1 := fun _ => JC (c + csum coins)).
+    { eapply hoare_post; [| |apply inv_hoare]; [intros ? ? H; exact H | exact Hw |]. jc_auto (c + csum coins). }
+    intros _. unfold bank_send.
+    eapply hoare_bind with (Q1 := fun _ => JC c).
+    { eapply hoare_bind with (Q1 := fun _ => JC c).
+      - eapply hoare_post; [| |apply (jc_bank_sub_custody_strong coins Hn)];
+          [intros ? ? H; replace c with (c + csum coins - csum coins) by lia; exact H
+          |intros ? H; replace c with (c + csum coins - csum coins) by lia; exact H].
+      - intros _. apply inv_hoare. apply jc_bank_add_other. acc_ne. }
+    intros _. apply hoare_ret. auto.
+  Qed.
+
+  Lemma jc_claim_validator_rewards v vi c : inv (JC c) (claim_validator_rewards v vi).
+  Proof.
+    apply inv_of_hoare. unfold claim_validator_rewards.
+    eapply hoare_bind with (Q1 := fun _ => JC c); [apply hoare_gets; auto|]. intros od.
+    destruct od; [|apply hoare_ret; auto].
+    eapply hoare_bind; [apply jc_withdraw_oracle|]. intros coins.
+    destruct (cis_zero coins).
+    - apply hoare_ret. intros s [H Hn]. eapply JC_weaken; [|exact H]. pose proof (csum_nonneg coins Hn). lia.
+    - intros s [H Hn]. exact (jc_add_assets_to_reward_pool v vi coins c Hn s H).
+  Qed.
+
+  (* a claim by a delegator that is not the custody account *)
+  Lemma jc_claim_delegation_rewards del v vi dn c : del <> ACC_ALLIANCE ->
+    inv (JC c) (claim_delegation_rewards del v vi dn).
+  Proof.
+    intros Hdel. unfold claim_delegation_rewards.
+    repeat (first [ apply jc_claim_validator_rewards | jc_step c ]).
+  Qed.
+
+  (* ---------- carrying a fact about the assets map through programs that do not write it ---------- *)
+  Lemma inv_with_assets A (J : State -> Prop) (R : KMap Asset -> Prop) (m : M A) :
+    inv J m -> (forall A0, inv (JA A0) m) -> inv (fun s => J s /\ R (assets s)) m.
+  Proof.
+    intros H1 H2 s [HJ HR]. specialize (H1 s HJ). specialize (H2 (assets s) s eq_refl). unfold JA in H2.
+    destruct (m s); rewrite H2; auto.
+  Qed.
+  Ltac assets_frame := let A0 := fresh "A0" in intros A0; inv_deep (JAf A0).
+
+  (* T read off the assets map *)
+  Lemma T_of_kget s a : WK s -> kget (assets s) [d] = Some a -> T s = a_tokens a.
+  Proof. intros _ H; unfold T, staked_total; rewrite H; reflexivity. Qed.
+
+  (* ---------- Delegate ---------- *)
+  Lemma jc_k_delegate del v vi dn amt c : del <> ACC_ALLIANCE -> 0 < amt ->
+    hoare (JC c) (k_delegate del v vi dn amt) (fun _ => JC c) (fun _ => True).
+  Proof.
+    intros Hdel Hamt. unfold k_delegate, get_asset. apply hoare_bind_gets_eq. intros s0 Hs0.
+    destruct (kget (assets s0) [dn]) as [a|] eqn:Eg; [|apply hoare_fail; auto].
+    assert (Hda : a_denom a = dn).
+    { pose proof (kall_kget _ _ _ _ (Inv_WK _ (proj1 Hs0)) Eg) as Hk. cbn in Hk. inversion Hk; reflexivity. }
+    set (x := if dn =? d then amt else 0).
+    set (R := fun A0 : KMap Asset => kget A0 [dn] = Some a).
+    unfold coin1. assert (E : amt <? 0 = false) by (apply Z.ltb_ge; lia). rewrite E.
+    assert (E2 : amt =? 0 = false) by (apply Z.eqb_neq; lia). rewrite E2.
+    unfold bind at 1. unfold ret at 1.
+    (* coins in *)
+    eapply hoare_bind with (Q1 := fun _ s => JC (c + x) s /\ R (assets s)).
+    { apply (hoare_pre _ _ (fun s => JC c s /\ R (assets s))); [intros s ->; split; [exact Hs0 | exact Eg]|].
+      unfold bank_send.
+      eapply hoare_bind with (Q1 := fun _ s => JC c s /\ R (assets s)).
+      - apply inv_hoare_true. apply inv_with_assets; [apply jc_bank_sub_other; exact Hdel | assets_frame].
+      - intros _. intros s [HJ HR]. pose proof (jc_bank_add_custody [(dn, amt)] c s HJ) as H.
+        assert (HA : inv (JA (assets s)) (bank_add ACC_ALLIANCE [(dn, amt)])) by (inv_deep (JAf (assets s))).
+        specialize (HA s eq_refl). unfold JA in HA.
+        destruct (bank_add ACC_ALLIANCE [(dn, amt)] s); try exact I.
+        split; [|rewrite HA; exact HR]. cbn in H. unfold x. rewrite Z.add_0_r in H. exact H. }
+    intros _.
+    (* settlement and the delegation record: slack-monotone, assets untouched *)
+    eapply hoare_bind with (Q1 := fun _ s => JC (c + x) s /\ R (assets s)).
+    { apply inv_hoare_true. apply inv_with_assets; [unfold get_delegation; apply inv_gets | assets_frame]. }
+    intros od.
+    eapply hoare_bind with (Q1 := fun _ s => JC (c + x) s /\ R (assets s)).
+    { apply inv_hoare_true. apply inv_with_assets; [|assets_frame].
+      destruct od; [apply jc_claim_delegation_rewards; exact Hdel | apply jc_claim_validator_rewards]. }
+    intros vi1.
+    eapply hoare_bind with (Q1 := fun _ s => JC (c + x) s /\ R (assets s)).
+    { apply inv_hoare_true. apply inv_with_assets; [jc_auto (c + x) | assets_frame]. }
+    intros ns.
+    eapply hoare_bind with (Q1 := fun _ s => JC (c + x) s /\ R (assets s)).
+    { apply inv_hoare_true. apply inv_with_assets; [jc_auto (c + x) | assets_frame]. }
+    intros nvs.
+    (* the staked total catches up *)
+    eapply hoare_bind with (Q1 := fun _ => JC c).
+    { unfold set_asset. apply hoare_modify. intros s [[Hi Hc] HR]. unfold R in HR. split; [inv_goal Hi|].
+      unfold sl in *. rewrite T_set_asset by exact Hi. cbn [a_denom a_tokens set_a_vshares set_a_tokens].
+      change (B (set_assets _ s)) with (B s). change (U (set_assets _ s)) with (U s).
+      unfold x in Hc. rewrite Hda. destruct (dn =? d) eqn:E3.
+      - apply Z.eqb_eq in E3. subst dn. rewrite E3 in HR. rewrite (T_of_kget s a (Inv_WK _ Hi) HR) in Hc. lia.
+      - lia. }
+    intros _. apply inv_hoare_true. jc_auto c.
   Qed.
 End Denom.
